@@ -448,6 +448,15 @@ pub fn scenarios(tier: Tier) -> (Vec<Scenario>, Limits, String) {
             out.push(Scenario { values: seq.clone(), max_len: Some(l - 1), idle_syncs: false, ctor: 0, relimit: None });
         }
     }
+    // a limit above the default: both values around 512 KiB are written; limits at the top of the u32 range
+    for big in large_frames().into_iter().filter(|f| f.payload.len() >= 500_000) {
+        let v = Val::Arr(big.value.clone().unwrap());
+        out.push(Scenario { values: vec![v], max_len: Some(600_000), idle_syncs: false, ctor: 0, relimit: None });
+    }
+    for m in [0x7fff_ffffu32, 0x8000_0000, u32::MAX - 4, u32::MAX - 3, u32::MAX] {
+        out.push(Scenario { values: vec![Val::Arr(vec![5])], max_len: Some(m), idle_syncs: false, ctor: 0, relimit: None });
+        out.push(Scenario { values: vec![Val::Arr(vec![]), Val::Arr(vec![5])], max_len: None, idle_syncs: false, ctor: 1, relimit: Some((0, m)) });
+    }
     // the limit changed on a writer that has been used: lowered after a larger frame (the second value must be refused),
     // lowered to exactly the second value's size, raised
     {
@@ -469,7 +478,7 @@ pub fn scenarios(tier: Tier) -> (Vec<Scenario>, Limits, String) {
     // largest scenarios first so that the dynamic sharding balances
     out.sort_by_key(|s: &Scenario| std::cmp::Reverse(s.values.iter().map(|v| v.payload().map(|p| p.len() + 4).unwrap_or(0)).sum::<usize>()));
     let bound = format!(
-        "0..={} values over {} value kinds (3 encodable arrays of 5..7 frame bytes, 2 failing encoders), max_len in {{default, 2, 3}}, plus values with payloads of 255..65537 bytes and of 512 KiB / 512 KiB + 1 (the default maximum; deviation budget 2) (writes of more than 32 bytes accepted whole or, as one deviation each, 1 / half / all-but-one bytes); AsyncWriter::new and ::with_buffer(recycled buffer: stale bytes / spare capacity / 640 KiB of capacity); set_max_len lowered / raised after a value on a used writer (11 scenarios); set_max_len(0)+restore and flush() while a frame is in flight (with_buffer scenarios); sink: all accept sizes (free), <= {} consecutive Pending, <= {} transient errors, <= {} zero-length accepts; caller: <= {} dropped write/sync futures; total deviation budget {}",
+        "0..={} values over {} value kinds (3 encodable arrays of 5..7 frame bytes, 2 failing encoders), max_len in {{default, 2, 3}}, plus values with payloads of 255..65537 bytes and of 512 KiB / 512 KiB + 1 (the default maximum; deviation budget 2) (writes of more than 32 bytes accepted whole or, as one deviation each, 1 / half / all-but-one bytes); AsyncWriter::new and ::with_buffer(recycled buffer: stale bytes / spare capacity / 640 KiB of capacity); set_max_len lowered / raised after a value on a used writer (11 scenarios); limits 600000 (with values of 512 KiB and 512 KiB + 1) and 2^31-1 .. u32::MAX; set_max_len(0)+restore and flush() while a frame is in flight (with_buffer scenarios); sink: all accept sizes (free), <= {} consecutive Pending, <= {} transient errors, <= {} zero-length accepts; caller: <= {} dropped write/sync futures; total deviation budget {}",
         max_vals, vals.len(), lim.p, lim.e, lim.z, lim.d, lim.b
     );
     (out, lim, bound)
